@@ -58,6 +58,7 @@ structure JudgeIn where
   after2 : Str
   orc : Oracle
   sexps : List Str        -- every S-expression the runtime printed for an error-free tree in this case
+  allSexps : List Str := []  -- every S-expression the runtime printed in this case (error trees included)
 
 /-- Well-formedness of an expectation (the property is about well-formed corpus files): empty, or one
 parenthesised group — starts with `(`, the depth returns to 0 exactly at the last character. -/
@@ -76,7 +77,7 @@ def dedup (xs : List String) : List String :=
 /-- The updater the property describes (all repairs): used only to say which corrections a correct `--update`
 would write for the tests of a file — independent of the variant of the code under test. -/
 def fxSpec : Fixes :=
-  { keepUnrun := true, oneCorrection := true, keepSuffixPreamble := true, quoteReset := true, keepCstFiltered := true }
+  { keepUnrun := true, oneCorrection := true, keepSuffixPreamble := true, quoteReset := true, keepCstFiltered := true, sameQuote := true }
 
 /-- The corrections a correct update writes for these tests (`none`: the run stops before writing). -/
 def specCorrections (j : JudgeIn) : Option (List Correction) := updateEntriesF fxSpec j.orc j.flt j.ent0 []
@@ -132,8 +133,38 @@ def judge (j : JudgeIn) : List String :=
   let keep := if canon && pres.isEmpty && j.ent0.length == j.ent1.length &&
       !((j.ent0.zip j.ent1).all fun (a, b) => j.flt a.name || !(a.attrs.cst || a.output.isEmpty || inFormatClass a.output) || a.output == b.output)
     then ["filtered-expectation-changed"] else []
+  -- a test that passes as written (expectation = what the parser prints, error nodes or not) is only re-formatted:
+  -- its expectation reads back unchanged
+  let passesNow (e : Entry) : Bool :=
+    e.attrs.expect == .pass && e.attrs.platform && !e.attrs.languages.isEmpty &&
+    (e.attrs.languages.take 1).all fun l => match j.orc l e.input with
+      | none => false
+      | some a => (if e.attrs.cst then a.cst else if e.hasFields then a.sexpFields else a.sexpPlain) == e.output
+  -- likewise a test whose expectation the update must KEEP (skipped, other platform, `:error`, or a parse with error /
+  -- MISSING nodes that does not match): it is only re-formatted.  Judged for well-shaped expectations (one group / CST)
+  -- of tests with at most one language;
+  -- well-shaped: `:cst`, empty, a balanced token sequence, or literally something the runtime printed in this case.
+  let keptBySpec (e : Entry) : Bool :=
+    (e.attrs.cst || e.output.isEmpty || inFormatClass e.output || j.allSexps.contains e.output) && e.attrs.languages.length ≤ 1 &&
+    (e.attrs.expect != .pass || !e.attrs.platform ||
+      (e.attrs.languages.take 1).all fun l => match j.orc l e.input with
+        | none => false
+        | some a =>
+          let actual := if e.attrs.cst then a.cst else if e.hasFields then a.sexpFields else a.sexpPlain
+          actual != e.output && (a.hasError || containsSub strERROR actual || containsSub strMISSING actual))
+  -- (cause-specific: when EVERY offending expectation holds a quoted quote character of the same kind — `"""`, `'''`,
+  -- what the runtime prints for a missing / unexpected quote token — the clause is named apart)
+  let sameQuoteTok (o : Str) : Bool := containsSub ['"', '"', '"'] o || containsSub ['\'', '\'', '\''] o
+  let offending := if canon && j.wrote1 && pres.isEmpty && j.ent0.length == j.ent1.length then
+      (j.ent0.zip j.ent1).filter fun (a, b) => a.output != b.output &&
+        ((j.flt a.name && (passesNow a || keptBySpec a)) ||
+         -- carried over by a filtered update with an expectation the runtime printed (S-expression): only re-formatted
+         (!j.flt a.name && !a.attrs.cst && j.allSexps.contains a.output))
+    else []
+  let kept := if offending.isEmpty then []
+    else if offending.all fun (a, _) => sameQuoteTok a.output then ["passing-changed-same-quote"] else ["passing-changed"]
   let idem := if wf && canon && j.after2 != j.after1 then ["idempotent"] else []
   let fmt := if j.sexps.all (fun s => normalizeSexp (trim (formatSexp j.fx s)) == s) then [] else ["format-normalize"]
-  read ++ pres ++ suffix ++ pre ++ delims ++ keep ++ passes ++ idem ++ fmt
+  read ++ pres ++ suffix ++ pre ++ delims ++ keep ++ kept ++ passes ++ idem ++ fmt
 
 end TsVerif.C20
